@@ -100,6 +100,13 @@ def run(ctx):
             canon_events.append(e)
         obs_s = vlib.run_replay(keep, s_send, f"C13-{tag}-score")
         sets = [(s_send, ref_s, obs_s)]
+        # a predictor serialised and deserialised BY THIS BUILD must still agree with the default build's fresh predictor
+        ser = [dict(d, preds=[dict(p, serde=True, trail=[]) for p in d["preds"]]) for d in s_send[-80:]]
+        obs_ser = vlib.run_replay(keep, ser, f"C13-{tag}-serde")
+        sets.append((ser, ref_s, obs_ser))
+        if "tag-prediction" in fs:
+            ser_t = [dict(d, preds=[dict(p, serde=True, trail=[]) for p in d["preds"]]) for d in t_send[-60:]]
+            sets.append((ser_t, ref_t, vlib.run_replay(keep, ser_t, f"C13-{tag}-serde-tags")))
         if "tag-prediction" in fs:
             obs_t = vlib.run_replay(keep, t_send, f"C13-{tag}-tags")
             sets.append((t_send, ref_t, obs_t))
